@@ -297,6 +297,36 @@ try:
 except ImportError as ex:                                  # pragma: no cover
     FAIL.append(f"torch not importable: {ex}")
 
+# multi-field assignment between structured arrays is by POSITION; np.clip
+# into [0, 1] is the identity exactly on the points inside; str.lower is
+# idempotent and fixes lower-case strings
+for _ in range(CASES):
+    n = rint(0, 5)
+    dt = [("a", "f8"), ("b", "f8"), ("c", "f8")]
+    x = np.zeros(n, dtype=dt)
+    y = np.zeros(n, dtype=dt)
+    for f_ in "abc":
+        x[f_] = rarr(n)
+        y[f_] = rarr(n)
+    y0 = y.copy()
+    names = list(rng.permutation(["a", "b", "c"])[:2])
+    src = list(rng.permutation(["a", "b", "c"])[:2])
+    y[names] = x[src]
+    other = [f_ for f_ in "abc" if f_ not in names][0]
+    check("a[[f1, f2]] = b[[g1, g2]]: by position, other fields untouched",
+          all(np.array_equal(y[names[j]], x[src[j]]) for j in range(2))
+          and np.array_equal(y[other], y0[other]), f"{names} <- {src}")
+    p_ = rng.normal(0.5, 0.6, size=(rint(1, 4), 2))
+    c_ = np.clip(p_, 0.0, 1.0)
+    inside = ((p_ >= 0) & (p_ <= 1)).all(axis=1)
+    check("np.clip(p, 0, 1) == p exactly for the points inside",
+          all((c_[i] == p_[i]).all() == inside[i] for i in range(len(p_))),
+          f"{p_}")
+for w in ("t", "logt", "LogT", "T", "LOGT", "Logit", "x_Y"):
+    check("str.lower is idempotent and fixes lower-case strings",
+          w.lower().lower() == w.lower() and
+          (w.lower() == w) == (not any(ch.isupper() for ch in w)), w)
+
 print(f"library conformance (seed {SEED}): {sum(COUNT.values())} evaluations "
       f"of {len(COUNT)} facts")
 for f in FAIL[:20]:
